@@ -1007,6 +1007,46 @@ def d3b_merge_arm_needs_anchor_segment(chk: Check) -> None:
                  "keys) and keeps the key")
 
 
+def d13_gathered_order_is_kept(chk: Check) -> None:
+    """_delete_nodes walks the list it is given from the end (C04-D2), which
+    is right for matches in the order the query found them.  The public
+    entry points hand the gathered list on *as it is*.  Re-ordering it --
+    by the text of the paths, for instance, where `[10]` sorts before `[2]`
+    -- makes the reverse walk delete a lower index before a higher one of
+    the same list, so an unmatched element goes and a matched one stays."""
+    prog = chk.prog
+    chk.rule("C04-D13", "the public delete entry points pass the gathered "
+             "list to _delete_nodes unchanged (a bare name; no sorted / "
+             "reversed / rebuilt list)", floor=2)
+    n = 0
+    for q in ("Processor.delete_nodes", "Processor.delete_gathered_nodes"):
+        fi = prog.func(q)
+        for c in walk_local(fi.node):
+            if not (isinstance(c, ast.Call) and
+                    src(c.func).endswith("._delete_nodes")):
+                continue
+            n += 1
+            arg = c.args[0] if c.args else None
+            text = "{}: {}".format(fi.short, src(c)[:60])
+            rebinds = []
+            if isinstance(arg, ast.Name):
+                rebinds = [a for a in walk_local(fi.node)
+                           if isinstance(a, ast.Assign) and
+                           src(a.targets[0]) == arg.id and
+                           not isinstance(a.value, (ast.List,))]
+            if isinstance(arg, ast.Name) and not rebinds:
+                chk.ok("C04-D13", fi, c, text, "the list as gathered")
+            else:
+                chk.fail("C04-D13", fi, c, text,
+                         "the gathered matches are re-ordered or rebuilt "
+                         "before deletion: the reverse walk of "
+                         "_delete_nodes is only sound for the order of "
+                         "discovery (a text sort puts `[10]` before `[2]`)")
+    if n < 2:
+        raise AnalysisError("_delete_nodes calls of the entry points: {}"
+                            .format(n))
+
+
 def run(chk: Check) -> None:
     d1_d2(chk)
     d3_d4(chk)
@@ -1021,6 +1061,7 @@ def run(chk: Check) -> None:
     shared_state_rule(chk, "C04-D11", ("yamlpath/processor.py",), 30)
     from rules.shared import merge_identity_rule
     merge_identity_rule(chk, "C04-D12", ("yamlpath/processor.py",), 3)
+    d13_gathered_order_is_kept(chk)
     d2b_ascending_gather(chk)
     from rules.c06 import falsy_rule
     falsy_rule(chk, "C04-D8", "yamlpath/processor.py", 30,
